@@ -36,6 +36,13 @@ class Unsupported(Exception):
     pass
 
 
+_CONTAINER_METHODS = {
+    'list': ('append', 'extend', 'insert', 'pop', 'remove', 'index', 'count', 'copy', 'reverse', 'sort', 'clear'),
+    'set': ('add', 'update', 'discard', 'remove', 'copy', 'union', 'intersection', 'difference', 'clear'),
+    'dict': ('keys', 'values', 'items', 'get', 'copy', 'pop', 'update', 'setdefault', 'clear'),
+}
+
+
 class Table(dict):
     """abstract array: explicitly seeded cells hold ranks/markers, any other cell reads as a
     marker (name, index) so that a read of the wrong cell is visible in the result"""
@@ -59,20 +66,35 @@ class Obj:
     comparisons between records are dispatched to the *repository's* dunder methods,
     interpreted by this module (never executed by Python)."""
 
-    def __init__(self, fields, methods):
+    def __init__(self, fields, methods, funcs=None, isa=()):
         self.fields = fields
         self.methods = methods          # name -> ast.FunctionDef
         self.depth = 0
+        self.funcs = funcs
+        self.isa = set(isa)             # class names this record is an instance of (empty: any)
 
-    def call(self, name, *args):
+    def call(self, name, *args, **kwargs):
         fn = self.methods.get(name)
         if fn is None:
             raise Unsupported('no method %s' % name)
         params = [a.arg for a in fn.args.args]
         env = {params[0]: self}
+        defaults = fn.args.defaults
+        for i, d in enumerate(defaults):
+            env[params[len(params) - len(defaults) + i]] = ev(d, {}, self.funcs)
         for p, a in zip(params[1:], args):
             env[p] = a
-        kind, val = run_block(fn.body, env)
+        for k, v in kwargs.items():
+            if k not in params:
+                raise Unsupported('unexpected keyword %s' % k)
+            env[k] = v
+        missing = [p for p in params if p not in env]
+        if missing:
+            raise TypeError('%s() missing arguments %s' % (name, missing))
+        body = fn.body
+        if body and isinstance(body[0], ast.Expr) and isinstance(body[0].value, ast.Constant) and isinstance(body[0].value.value, str):
+            body = body[1:]
+        kind, val = run_block(body, env, self.funcs)
         return val if kind == 'return' else None
 
 
@@ -128,6 +150,10 @@ def ev(n, env, funcs=None):
             return base.read(idx)
         if isinstance(base, PyStub) and hasattr(base, '__getitem__'):
             return base[idx]
+        if isinstance(base, dict) and not isinstance(base, Table):
+            if idx not in base:
+                raise KeyError(idx)
+            return base[idx]
         if isinstance(base, (list, tuple)) and isinstance(idx, int) and not isinstance(idx, bool):
             if not -len(base) <= idx < len(base):
                 raise IndexError('index %d out of range (length %d) in %s' % (idx, len(base), ast.unparse(n)))
@@ -150,6 +176,8 @@ def ev(n, env, funcs=None):
                 rv = ev(f.value, env, funcs)
             except Unsupported:
                 rv = None
+            if isinstance(rv, (list, set, dict)) and fname in _CONTAINER_METHODS.get(type(rv).__name__, ()) and not n.keywords:
+                return getattr(rv, fname)(*[ev(a, env, funcs) for a in n.args])
             if isinstance(rv, PyStub):
                 if not hasattr(rv, fname):
                     raise Unsupported('abstract object has no method %s' % fname)
@@ -160,7 +188,7 @@ def ev(n, env, funcs=None):
                 try:
                     if rv.depth > 6:
                         raise Unsupported('recursion in %s' % fname)
-                    return rv.call(fname, *[ev(a, env, funcs) for a in n.args])
+                    return rv.call(fname, *[ev(a, env, funcs) for a in n.args], **{k.arg: ev(k.value, env, funcs) for k in n.keywords if k.arg})
                 finally:
                     rv.depth -= 1
         if isinstance(f, ast.Attribute) and fname == 'append' and len(n.args) == 1:
@@ -174,7 +202,17 @@ def ev(n, env, funcs=None):
                 return complex(v).real if fname == 'real' else complex(v).imag
             raise Unsupported('real/imag of a non-number')
         if fname == 'isinstance' and len(n.args) == 2:
-            return isinstance(ev(n.args[0], env, funcs), Obj)
+            v0 = ev(n.args[0], env, funcs)
+            cls = n.args[1].elts if isinstance(n.args[1], ast.Tuple) else [n.args[1]]
+            names = {ast.unparse(c).split('.')[-1] for c in cls}
+            if isinstance(v0, Obj):
+                return True if not v0.isa else bool(v0.isa & names)
+            if isinstance(v0, PyStub):
+                return bool(set(getattr(v0, 'isa', ())) & names)
+            pyname = {bool: 'bool', int: 'int', float: 'float', str: 'str', list: 'list', tuple: 'tuple', dict: 'dict', set: 'set'}.get(type(v0))
+            if pyname == 'bool':
+                return bool({'bool', 'int'} & names)
+            return pyname in names if pyname else False
         args = []
         for a_ in n.args:
             if isinstance(a_, ast.Starred):
@@ -188,6 +226,15 @@ def ev(n, env, funcs=None):
             if args[0].lower().lstrip('+') in ('inf', 'infinity'):
                 return float('inf')
             raise Unsupported('float of a string')
+        if isinstance(f, ast.Name) and fname == 'set' and len(args) <= 1 and not n.keywords:
+            if not args:
+                return set()
+            if isinstance(args[0], (list, tuple, set, range)):
+                return set(args[0])
+        if isinstance(f, ast.Name) and fname == 'dict' and not args and not n.keywords:
+            return {}
+        if isinstance(f, ast.Name) and fname == 'list' and len(args) == 1 and isinstance(args[0], (set, dict)):
+            return sorted(args[0], key=repr)
         if isinstance(f, ast.Name) and fname in ('list', 'tuple') and len(args) <= 1 and not n.keywords:
             if not args:
                 return [] if fname == 'list' else ()
@@ -205,7 +252,7 @@ def ev(n, env, funcs=None):
             return (min if fname == 'min' else max)(args)
         if fname in ('abs', 'fabs') and len(args) == 1:
             return abs(args[0])
-        if fname == 'len' and len(args) == 1 and (isinstance(args[0], (list, tuple, dict, str)) or (isinstance(args[0], PyStub) and hasattr(args[0], '__len__'))):
+        if fname == 'len' and len(args) == 1 and (isinstance(args[0], (list, tuple, dict, str, set)) or (isinstance(args[0], PyStub) and hasattr(args[0], '__len__'))):
             return len(args[0])
         if fname == 'range' and isinstance(f, ast.Name) and all(isinstance(a, int) for a in args):
             return list(range(*args))
@@ -322,6 +369,10 @@ def ev(n, env, funcs=None):
                      ev(n.step, env, funcs) if n.step is not None else None)
     if isinstance(n, ast.IfExp):
         return ev(n.body, env, funcs) if ev(n.test, env, funcs) else ev(n.orelse, env, funcs)
+    if isinstance(n, ast.Dict) and all(k is not None for k in n.keys):
+        return {ev(k, env, funcs): ev(v, env, funcs) for k, v in zip(n.keys, n.values)}
+    if isinstance(n, ast.Set):
+        return {ev(e, env, funcs) for e in n.elts}
     if isinstance(n, ast.Tuple):
         return tuple(ev(e, env, funcs) for e in n.elts)
     if isinstance(n, ast.List):
@@ -349,7 +400,7 @@ def run_block(stmts, env, funcs=None, limit=10000):
                     funcs['__globals__'][t.id] = v
                 else:
                     _bind(t, v, env, funcs)
-        elif isinstance(s, ast.AugAssign) and isinstance(s.target, ast.Subscript):
+        elif isinstance(s, ast.AugAssign) and isinstance(s.target, ast.Subscript) and isinstance(ev(s.target.value, env, funcs), Table):
             base = ev(s.target.value, env, funcs)
             key = ev(s.target.slice, env, funcs)
             if not isinstance(base, Table):
@@ -358,6 +409,13 @@ def run_block(stmts, env, funcs=None, limit=10000):
             v = ev(s.value, env, funcs)
             t = type(s.op)
             base[key] = cur + v if t is ast.Add else cur - v if t is ast.Sub else cur * v
+        elif isinstance(s, ast.AugAssign) and isinstance(s.target, (ast.Attribute, ast.Subscript)):
+            cur = ev(s.target, env, funcs)
+            v = ev(s.value, env, funcs)
+            t = type(s.op)
+            if t not in (ast.Add, ast.Sub, ast.Mult, ast.Div):
+                raise Unsupported('augmented assignment %s' % ast.unparse(s))
+            _bind(s.target, cur + v if t is ast.Add else cur - v if t is ast.Sub else cur * v if t is ast.Mult else cur / v, env, funcs)
         elif isinstance(s, ast.AugAssign) and isinstance(s.target, ast.Name):
             cur = env[s.target.id]
             v = ev(s.value, env, funcs)
@@ -437,12 +495,28 @@ def _bind(t, v, env, funcs=None):
                 raise IndexError('store index %r out of range in %s' % (k, ast.unparse(t)))
             base[k] = v
             return
+        if isinstance(base, dict) and not isinstance(base, Table):
+            base[ev(t.slice, env, funcs)] = v
+            return
+        if isinstance(base, PyStub) and hasattr(base, '__setitem__'):
+            base[ev(t.slice, env, funcs)] = v
+            return
         if not isinstance(base, Table):
             raise Unsupported('store into %s' % ast.unparse(t))
         base[ev(t.slice, env, funcs)] = v
     elif isinstance(t, (ast.Tuple, ast.List)):
+        if not isinstance(v, (list, tuple)) or len(v) != len(t.elts):
+            raise Unsupported('unpacking %s' % ast.unparse(t))
         for a, b in zip(t.elts, v):
             _bind(a, b, env, funcs)
+    elif isinstance(t, ast.Attribute):
+        base = ev(t.value, env, funcs)
+        if isinstance(base, Obj):
+            base.fields[t.attr] = v
+        elif isinstance(base, PyStub):
+            setattr(base, t.attr, v)
+        else:
+            raise Unsupported('attribute store %s' % ast.unparse(t))
     else:
         raise Unsupported('target %s' % ast.unparse(t))
 
